@@ -542,9 +542,41 @@ func ruleR20e(h *H) {
 	const rule = "R20e"
 	h.Rule(rule, "K2/K3", "write stream wrapper: the append to the pending list and the stream Send are in one critical section of the wrapper's mutex; responses complete the head of the list; closing the stream fails every pending future", 3)
 	const pkg = "oxia/internal"
-	ws := h.P.FieldWrites(pkg, "streamWrapper", "pendingRequests")
+	// the wrapper type: a struct of oxia/internal with a write-stream client and a slice of futures
+	wt, pf := "", ""
+	if pk := h.P.Package(pkg); pk != nil {
+		sc := pk.Types.Scope()
+		for _, nm := range sc.Names() {
+			tn, ok := sc.Lookup(nm).(*types.TypeName)
+			if !ok {
+				continue
+			}
+			st, ok := tn.Type().Underlying().(*types.Struct)
+			if !ok {
+				continue
+			}
+			hasStream, fut := false, ""
+			for i := 0; i < st.NumFields(); i++ {
+				ft := st.Field(i).Type()
+				if ir.TypeIs(ft, "proto", "OxiaClient_WriteStreamClient") {
+					hasStream = true
+				}
+				if sl, ok := ft.Underlying().(*types.Slice); ok && strings.Contains(sl.Elem().String(), "concurrent.Future") {
+					fut = st.Field(i).Name()
+				}
+			}
+			if hasStream && fut != "" {
+				wt, pf = nm, fut
+			}
+		}
+	}
+	if wt == "" {
+		h.Anchor(rule, "the write-stream wrapper type (stream client + pending futures)")
+		return
+	}
+	ws := h.P.FieldWrites(pkg, wt, pf)
 	if len(ws) == 0 {
-		h.Anchor(rule, "streamWrapper.pendingRequests")
+		h.Anchor(rule, wt+"."+pf)
 		return
 	}
 	streamSend := ir.Callee{Pkg: "proto", Recv: "OxiaClient_WriteStreamClient", Name: "Send"}
@@ -576,14 +608,14 @@ func ruleR20e(h *H) {
 			headUsed := false
 			ir.Instrs(fn, func(in ssa.Instruction) {
 				if ia, ok := in.(*ssa.IndexAddr); ok {
-					if k, ok := ia.Index.(*ssa.Const); ok && k.Value != nil && k.Int64() == 0 && ir.LoadsField(ia.X, pkg, "streamWrapper", "pendingRequests") {
+					if k, ok := ia.Index.(*ssa.Const); ok && k.Value != nil && k.Int64() == 0 && ir.LoadsField(ia.X, pkg, wt, pf) {
 						headUsed = true
 					}
 				}
 			})
 			h.Verdict(popHead && headUsed, rule, "response completes the head in "+ir.FuncName(fn), h.pos(w.Instr), "future = pending[0]; pending = pending[1:]", "a response does not complete (only) the oldest pending request")
 		case *ssa.Const:
-			if x.IsNil() && fn.Name() != "newStreamWrapper" {
+			if x.IsNil() && w.Kind != "literal" {
 				// reset: every pending future must have been failed in a loop before
 				failed := false
 				ir.Instrs(fn, func(in ssa.Instruction) {
